@@ -46,14 +46,19 @@ META = {
                   "(thorough) as tuples, <=3/4 as lists, strings, bytes, mixed containers, nested tuples, dict pairs, depth-limit "
                   "cases, random longer sequences, and diffEnv on all subsets of the listed keys; that diffEnv/upToDate report for a "
                   "target what they report for it alone is checked on the real code by running those targets, and generated "
-                  "projects of real sibling targets (33 kinds of change, each of the nine parts also as the only part that differs), "
+                  "projects of real sibling targets (38 kinds of change, each of the nine parts also as the only part that differs), "
                   "concurrently under a family of schedules and through the "
                   "runner's own TargetEvaluating events, against the differing parts computed directly from the two environments "
                   "over ALL their keys; the keys of real environments are compared with the model's unpickler, and the mapping diffs "
                   "nested in the diff shown for a target are walked by a direct oracle. Dict values include None and the other "
-                  "values that read as nothing (present/absent decided by the look-up, never by the value), None is also a key.",
+                  "values that read as nothing (present/absent decided by the look-up, never by the value), None is also a key. "
+                  "NUMBERS: 'equal' is Starlark's equality, which is not 'same type': the model's universe has Bool and Float "
+                  "(NaN, the infinities, -0.0 and the multiples of one half) and EqualDepth's int/float case (1 == 1.0, "
+                  "0 == 0.0 == -0.0, NaN == NaN, True != 1); all theorems hold unchanged over the larger universe, and "
+                  "elements / dict keys / dict values / whole values that are equal without being of one type, or alike "
+                  "without being equal, are swept in every position in which a stage of the diff compares two values.",
     "level_note": "Trusted: Coq kernel; the Go harness's rendering of values and diffs; starlark's EqualDepth/Index/Slice are "
-                  "modelled for None/int/string/bytes/tuple/list/dict only (no floats, sets, user types) and validated by the "
+                  "modelled for None/bool/int/float/string/bytes/tuple/list/dict only (floats: NaN, +-Inf, -0.0 and k/2; no sets, user types) and validated by the "
                   "sweep. The faithfulness theorems are stated for runs that return a script; the totality theorems show that every "
                   "run returns a script or the EqualDepth depth error (route size >= 1). Minimality is proved for the non-exhausted table only (after exhaustion the script is "
                   "not minimal: known finding); a common suffix is not always a trailing Common "
@@ -94,8 +99,10 @@ def run(ctx):
            "VERIF_DICTKEYS": "3" if quick else "4",
            "VERIF_NONEVALS": "3" if quick else "4",
            "VERIF_NRAND": "300" if quick else "3000",
+           "VERIF_NUMLEN": "3", "VERIF_NUMALPHA": "4" if quick else "5",
            "VERIF_BIG": "1"}
-    rc, o = ctx.go_overlay_test("diff", {"zz_verif_c16_test.go": os.path.join(HARNESS, "overlay/diff/zz_verif_c16_test.go")},
+    rc, o = ctx.go_overlay_test("diff", {"zz_verif_c16_test.go": os.path.join(HARNESS, "overlay/diff/zz_verif_c16_test.go"),
+                                         "zz_verif_c16_num_test.go": os.path.join(HARNESS, "overlay/diff/zz_verif_c16_num_test.go")},
                                 "^TestVerifC16$", env)
     if rc != 0:
         ctx.log(o[-3000:])
@@ -200,11 +207,20 @@ def run(ctx):
         "{absent,1,2,(0,1)} to %s keys (new dict built in reverse key order) and 9^4 two-key dicts with nested tuple/dict/"
         "string values; every pair of dicts assigning {absent,None,1%s} to the keys None,'k',1 (a key bound to None kept, "
         "changed, removed, added), each also one level down (value of an outer dict's key; only element of a tuple), and one "
-        "key going between any two of {absent,None,0,'',b'',(),[],{},1} next to a key unchanged/changed/added/removed/None; 11^2 literal pairs; nesting depths 7..12 around the EqualDepth limit; %s seeded random sequences "
+        "key going between any two of {absent,None,0,'',b'',(),[],{},1} next to a key unchanged/changed/added/removed/None; 11^2 literal pairs; "
+        "NUMBERS (equal without being of one type, alike without being equal): every pair of tuples of length <= %s over {1, 1.0, 2, True%s} "
+        "(lists: one shorter; tuple against list: <= 2), of length <= 2 over {0, 0.0, -0.0, 0.5, False}, over {NaN, +Inf, -Inf, 1, -1.5} and over "
+        "6 containers holding equal numbers of two types ((1,) (1.0,) {1:1} {1.0:1.0} (1,'a') (1.0,'b')); 18^2 pairs of such values themselves; "
+        "6^4 pairs of dicts whose key 1 is the key 1.0 of the other with values {absent,1,1.0,2,(1,'a'),(1.0,'b')}; %s seeded sequences of "
+        "constants with 0-2 local edits and elements re-typed to their equal twin at random; one re-typed element at every position next to one "
+        "changed element at every other position (lengths 2-4, +-1 element, both orders); in diffEnv: each part re-typed alone, next to each "
+        "other part changed, and re-typed and changed at once; 5 kinds of real targets with re-typed constants/globals/defaults, whose shown diff "
+        "is now also walked for the sequence clause (kept+deleted+old sides / kept+added+new sides reproduce the two values, no replace entry without sides); nesting depths 7..12 around the EqualDepth limit; %s seeded random sequences "
         "of length <= 12; 3 pairs of ~1500-element tuples that exhaust the route table (oracle only); diffEnv on all 2^9 "
-        "subsets of functionEnvKeys x (unlisted key differs or not); the same %d hand-built targets checked CONCURRENTLY as siblings (8 schedules: 2..64 goroutines x GOMAXPROCS 1..ncpu x seeded orders) and %s generated projects of real sibling targets (the first with all 33 change kinds, the second with the 27 that leave the module's tables alone so that a part is the ONLY one that differs, the others 16 seeded: constants, universals, globals, predeclared modules and attributes, nested functions, the target's own default parameters, captured variables of closures, None-valued globals/defaults/captured variables, code) checked alone against the parts computed from ALL keys of the two environments (not only the keys diffEnv has a name for), the keys of every real environment compared with the model's envUnpickler (Diff/ModelEnv.v), every mapping diff nested in the diff shown for a target walked (an edit exactly for the keys removed/added/changed), concurrently through upToDate (5 schedules each) and through the runner's TargetEvaluating events (%s dry runs each) against the parts computed directly from the two environments. distinct = by full case text; non-trivial = not equal"
+        "subsets of functionEnvKeys x (unlisted key differs or not); the same %d hand-built targets checked CONCURRENTLY as siblings (8 schedules: 2..64 goroutines x GOMAXPROCS 1..ncpu x seeded orders) and %s generated projects of real sibling targets (the first with all 38 change kinds, the second with the 32 that leave the module's tables alone so that a part is the ONLY one that differs, the others 16 seeded: constants, universals, globals, predeclared modules and attributes, nested functions, the target's own default parameters, captured variables of closures, None-valued globals/defaults/captured variables, code) checked alone against the parts computed from ALL keys of the two environments (not only the keys diffEnv has a name for), the keys of every real environment compared with the model's envUnpickler (Diff/ModelEnv.v), every mapping diff nested in the diff shown for a target walked (an edit exactly for the keys removed/added/changed), concurrently through upToDate (5 schedules each) and through the runner's TargetEvaluating events (%s dry runs each) against the parts computed directly from the two environments. distinct = by full case text; non-trivial = not equal"
         % (env["VERIF_MAXLEN"], env["VERIF_MAXLEN_OTHER"], int(env["VERIF_MAXLEN_NESTED"]) + 1, env["VERIF_MAXLEN_NESTED"],
-           env["VERIF_DICTKEYS"], "" if quick else ",0", env["VERIF_NRAND"], sum(1 for c in cases if c[0] == "env"),
+           env["VERIF_DICTKEYS"], "" if quick else ",0", env["VERIF_NUMLEN"], "" if quick else ", 2.0", env["VERIF_NRAND"],
+           env["VERIF_NRAND"], sum(1 for c in cases if c[0] == "env"),
            "3" if quick else "8", "40" if quick else "150"))
     ctx.coverage["exhaustive"] = True
     ctx.coverage["correspondence"]["distribution"] = dist
